@@ -67,6 +67,8 @@ class Block:
         return '<%s>' % ', '.join(parts) if parts else ''
 
     def bound_text(self, tr, binds):
+        if tr == '__outlives__':
+            return self.slots['L0'][1]
         if not binds:
             return tr
         bs = ', '.join('%s = %s' % (a, self.fmt(x)) for a, x in binds.items())
@@ -234,7 +236,8 @@ def subst_fmt(fmt, inst):
 
 
 class Case:
-    def __init__(self, kind, trait_name, trait_generics, blocks, probes, world, note=''):
+    def __init__(self, kind, trait_name, trait_generics, blocks, probes, world, note='', extra_world=''):
+        self.extra_world = extra_world
         self.kind = kind
         self.trait_name = trait_name          # None => inherent mode
         self.trait_generics = trait_generics  # declaration text e.g. "<'a, P>" or ''
@@ -254,7 +257,7 @@ class Case:
         return '%s: %s%s' % (ty, self.trait_name, '<%s>' % targs if targs else '')
 
     def macro_program(self, order=None, values_for=None):
-        src = PRELUDE + world_text(self.world)
+        src = PRELUDE + world_text(self.world) + self.extra_world
         src += 'disjoint_impls! {\n%s}\n' % self.invocation(order)
         lines = []
         for j, p in enumerate(self.probes):
@@ -268,7 +271,7 @@ class Case:
         return src
 
     def shadow_program(self):
-        src = PRELUDE + world_text(self.world)
+        src = PRELUDE + world_text(self.world) + self.extra_world
         for i, b in enumerate(self.blocks):
             src += shadow_text(i, b, self.trait_generics)
         lines = []
@@ -311,7 +314,78 @@ def build_world_and_probes(rng, blocks, headers, unsized=False, nprobes=6, impl_
     return probes, world
 
 
+def gen_targs_case(rng):
+    """traits with lifetime / type / const parameters (bounds, defaults, ?Sized): blocks for
+    generic and for concrete instantiations, families per instantiation"""
+    variant = rng.choice(['generic', 'concrete', 'lifetime', 'const', 'bounded', 'unsized_arg', 'mixed'])
+    tr = rng.choice(['D', 'D2'])
+    def fam(trait_args, self_fmt, used, groups, tag0, extra_bounds=(), relaxed=None):
+        out = []
+        for i, g in enumerate(groups):
+            slots = mk_slots(rng, used)
+            order = list(slots); rng.shuffle(order)
+            order = [x for x in order if x[0] == 'L'] + [x for x in order if x[0] != 'L']
+            bounds = [('{T0}', tr, {'G': g}, rng.choice(['inline', 'where']))] + [(b, t, dict(bi), rng.choice(['inline', 'where'])) for (b, t, bi) in extra_bounds]
+            out.append(Block({x: slots[x] for x in order}, trait_args, self_fmt, bounds, 'b%d' % (tag0 + i), relaxed=dict(relaxed or {}),
+                             overrides=['NAME'] + (['ID'] if rng.random() < 0.5 else [])))
+        return out
+    extra_world = ''
+    atoms = ATOMS[:3]
+    if variant == 'generic':
+        tg = '<P>'
+        blocks = fam('{T1}', '{T0}', ['T0', 'T1'], rng.sample(GROUPS, 2), 0)
+        targs_pool = ['X0', 'X1', 'Vec<X0>']
+    elif variant == 'concrete':
+        tg = '<P>'
+        blocks = fam('X0', '{T0}', ['T0'], rng.sample(GROUPS, 2), 0) + fam('X1', '{T0}', ['T0'], rng.sample(GROUPS, 2), 2)
+        if rng.random() < 0.5:
+            blocks += fam('Vec<{T1}>', '{T0}', ['T0', 'T1'], rng.sample(GROUPS, 2), 4)
+        targs_pool = ['X0', 'X1', 'X2', 'Vec<X0>']
+    elif variant == 'lifetime':
+        tg = "<'a, P: 'a>"
+        blocks = fam("{L0}, {T1}", "&{L0} {T0}", ['L0', 'T0', 'T1'], rng.sample(GROUPS, 2), 0, extra_bounds=[('{T1}', "'static", {})][:0])
+        for b in blocks:
+            b.bounds.append(('{T1}', "__outlives__", {}, 'where'))
+        targs_pool = ["'static, X0", "'static, X1"]
+    elif variant == 'const':
+        tg = '<P, const N: usize>'
+        blocks = fam('{T1}, 2', '{T0}', ['T0', 'T1'], rng.sample(GROUPS, 2), 0) + fam('{T1}, 3', '{T0}', ['T0', 'T1'], rng.sample(GROUPS, 2), 2)
+        if rng.random() < 0.5:
+            blocks = fam('{T1}, {N0}', '{T0}', ['T0', 'T1', 'N0'], rng.sample(GROUPS, 2), 0)
+        targs_pool = ['X0, 2', 'X1, 3', 'X0, 4']
+    elif variant == 'bounded':
+        tg = '<P: Tr0>'
+        blocks = fam('{T1}', '{T0}', ['T0', 'T1'], rng.sample(GROUPS, 2), 0, extra_bounds=[('{T1}', 'Tr0', {})])
+        extra_world = 'impl Tr0 for X0 {}\nimpl Tr0 for Vec<X0> {}\n'
+        targs_pool = ['X0', 'Vec<X0>']
+    elif variant == 'unsized_arg':
+        tg = '<P: ?Sized>'
+        blocks = fam('{T1}', '{T0}', ['T0', 'T1'], rng.sample(GROUPS, 2), 0, relaxed={'T1': rng.choice(['inline', 'where'])})
+        targs_pool = ['X0', 'str', '[u8]']
+    else:
+        tg = "<'a, P: 'a + ?Sized, const N: usize>"
+        blocks = fam("{L0}, {T1}, {N0}", "&{L0} {T0}", ['L0', 'T0', 'T1', 'N0'], rng.sample(GROUPS, 2), 0, relaxed={'T1': 'where'})
+        for b in blocks:
+            b.bounds.append(('{T1}', "__outlives__", {}, 'where'))
+        targs_pool = ["'static, X0, 2", "'static, str, 3"]
+    order = list(range(len(blocks))); rng.shuffle(order)
+    blocks = [blocks[i] for i in order]
+    for i, b in enumerate(blocks):
+        b.tag = 'b%d' % i
+    # probes: self types x argument lists
+    self_pool = ["&'static X0", "&'static X1", "&'static X2"] if variant in ('lifetime', 'mixed') else ['X0', 'X1', 'X2', 'Vec<X0>']
+    probes = [(ta, ty) for ty in self_pool for ta in targs_pool]
+    rng.shuffle(probes)
+    probes = probes[:12]
+    world = {}
+    for ty in ['X0', 'X1', 'X2', 'Vec<X0>']:
+        world[(ty, tr)] = {a: rng.choice(GROUPS) for a in TRAITS[tr]} if rng.random() < 0.85 else None
+    return Case('targs:' + variant, 'K', tg, blocks, probes, world, extra_world=extra_world)
+
+
 def gen_case(rng, kind):
+    if kind == 'targs':
+        return gen_targs_case(rng)
     if kind == 'flat':
         h = rng.choice(['T', 'pair', 'vec', 'opt', 'box', 'arr', 'vecpair', 'w', 'dup', 'ref'])
         blocks = gen_family(rng, h, rng.choice([2, 2, 3]), 0)
